@@ -46,9 +46,9 @@ impl CmapSubtable {
             start_code.push(start as u32 as u16);
             end_code.push(end as u32 as u16);
             if let Some(delta) = segment.id_delta {
-                // "The idDelta arithmetic is modulo 65536":
-                let delta = i16::try_from(delta)
-                    .unwrap_or_else(|_| delta.rem_euclid(0x10000).try_into().unwrap());
+                // "The idDelta arithmetic is modulo 65536": keep the low 16 bits
+                // and reinterpret them as a signed value.
+                let delta = delta as u16 as i16;
                 id_deltas.push(delta);
                 id_range_offsets.push(0u16);
             } else {
@@ -651,6 +651,25 @@ mod tests {
         let font_data = FontData::new(&bytes);
         let cmap = Cmap::read(font_data).unwrap();
         assert_eq!(cmap.map_codepoint(codepoint), Some(gid));
+    }
+
+    #[test]
+    fn generate_cmap4_delta_wraps_modulo_65536() {
+        // glyph id minus codepoint does not fit in an i16 in either direction
+        let mappings = vec![
+            (' ', GlyphId::new(40000)),
+            ('\u{1}', GlyphId::new(0xFFFF)),
+            ('\u{9000}', GlyphId::new(1)),
+        ];
+
+        let cmap = write::Cmap::from_mappings(mappings.clone()).unwrap();
+
+        let bytes = dump_table(&cmap).unwrap();
+        let font_data = FontData::new(&bytes);
+        let cmap = Cmap::read(font_data).unwrap();
+        for (codepoint, gid) in mappings {
+            assert_eq!(cmap.map_codepoint(codepoint), Some(gid));
+        }
     }
 
     #[test]
